@@ -11,7 +11,7 @@
                   indeterminate values, modelled by the parameter [jk] over which every
                   theorem is universally quantified).
    No proofs in this file (the model must still run when a proof breaks). *)
-From Coq Require Import List Arith ZArith Bool Lia.
+From Coq Require Import List Arith ZArith NArith Bool Lia.
 Import ListNotations.
 Local Open Scope nat_scope.
 
@@ -28,7 +28,7 @@ Inductive op :=
 | ORemoveAt (i : nat) | OInsertAt (i : nat) (x : Z) | OReplaceAt (i : nat) (x : Z)
 | OGet (i : nat)
 | OClear (release : bool)
-| OEnsure (n : nat) (setnum : bool) (extra : nat) (shrink : bool)
+| OEnsure (n : N) (setnum : bool) (extra : N) (shrink : bool)   (* uint32 arguments: n + extra may exceed 2^32 *)
 | OSwap (i j : nat)
 | OReverse (from to : nat)
 | ONormalize
@@ -47,8 +47,8 @@ Inductive op :=
 (* the argument is a reference to an item held by the Queue itself: q.AddTail(q[i]) etc. *)
 | OAddTailRef (i : nat) | OAddHeadRef (i : nat) | OInsertAtRef (idx i : nat) | OReplaceRef (idx i : nat)
 | ORemoveAllRef (i : nat)
-| OShrinkToFit (extra : nat)                  (* ShrinkToFit(extra) = EnsureSize(GetNumItems()+extra, false, 0, true) *)
-| OEnsureCanAdd (n : nat)                     (* EnsureCanAdd(n)   = EnsureSize(GetNumItems()+n) *)
+| OShrinkToFit (extra : N)                    (* ShrinkToFit(extra) = EnsureSize(GetNumItems()+extra, false, 0, true) *)
+| OEnsureCanAdd (n : N)                       (* EnsureCanAdd(n)   = EnsureSize(GetNumItems()+n) *)
 | OReplaceAll (x : Z)                         (* ReplaceAllItems(x) *)
 | OPieces.                                    (* GetArrayPointer(0,..) and GetArrayPointer(1,..): the contiguous pieces of the window *)
 
@@ -74,6 +74,10 @@ Definition swap_list (l : list Z) (i j : nat) : list Z :=
 Definition l0_remove_at (l : list Z) (i : nat) : list Z := firstn i l ++ skipn (S i) l.
 Definition l0_insert_at (l : list Z) (i : nat) (xs : list Z) : list Z := firstn i l ++ xs ++ skipn i l.
 Definition l0_resize (l : list Z) (n : nat) : list Z := firstn n l ++ repeat 0%Z (n - length l).
+
+(* the uint32 sum a+b wraps around or is MUSCLE_NO_LIMIT (2^32-1): EnsureSize / EnsureCanAdd / ShrinkToFit then
+   return B_RESOURCE_LIMIT before touching anything [EnsureSizeAux: with the repair of the unguarded size+extraPreallocs] *)
+Definition too_big (a b : N) : bool := N.leb 4294967295%N (a + b).
 
 Definition l0_index_of (l : list Z) (x : Z) (from to : nat) : option nat :=
   if length l <=? from then None
@@ -159,7 +163,8 @@ Definition step0 (l : list Z) (o : op) : list Z * out :=
   | OReplaceAt i x => if i <? length l then (upd l i x, OStatus true) else (l, OStatus false)
   | OGet i => (l, OVal (if i <? length l then Some (nth i l 0%Z) else None))
   | OClear _ => ([], ONone)
-  | OEnsure n setnum _ _ => ((if setnum then l0_resize l n else l), OStatus true)
+  | OEnsure n setnum e _ =>
+      if too_big n e then (l, OStatus false) else ((if setnum then l0_resize l (N.to_nat n) else l), OStatus true)
   | OSwap i j => if (i <? length l) && (j <? length l) then (swap_list l i j, ONone) else (l, ONone)
   | OReverse f t => (l0_reverse l f t, ONone)
   | ONormalize => (l, ONone)
@@ -193,8 +198,8 @@ Definition step0 (l : list Z) (o : op) : list Z * out :=
         let x := nth i l 0%Z in
         (filter (fun y => negb (Z.eqb y x)) l, ONum (length (filter (fun y => Z.eqb y x) l)))
       else (l, ONum 0)
-  | OShrinkToFit _ => (l, OStatus true)
-  | OEnsureCanAdd _ => (l, OStatus true)
+  | OShrinkToFit e => (l, OStatus (negb (too_big (N.of_nat (length l)) e)))
+  | OEnsureCanAdd n => (l, OStatus (negb (too_big (N.of_nat (length l)) n)))
   | OReplaceAll x => (repeat x (length l), ONone)
   | OPieces => (l, OList l)
   end.
@@ -624,7 +629,8 @@ Definition step1 (q : q1) (o : op) : q1 * out :=
   | OReplaceAt i x => if i <? cnt q then (setu q i x, OStatus true) else (q, OStatus false)
   | OGet i => (q, OVal (if i <? cnt q then Some (getu q i) else None))
   | OClear r => (clear q r, ONone)
-  | OEnsure n s e sh => (ensure_size q n s e sh, OStatus true)
+  | OEnsure n s e sh =>
+      if too_big n e then (q, OStatus false) else (ensure_size q (N.to_nat n) s (N.to_nat e) sh, OStatus true)
   | OSwap i j => if (i <? cnt q) && (j <? cnt q) then (swap_items q i j, ONone) else (q, ONone)
   | OReverse f t => (reverse q f t, ONone)
   | ONormalize => (normalize q, ONone)
@@ -653,8 +659,12 @@ Definition step1 (q : q1) (o : op) : q1 * out :=
       if (idx <? cnt q) && (i <? cnt q) then (setu q idx (getu q i), OStatus true) else (q, OStatus false)
   | ORemoveAllRef i =>
       if i <? cnt q then let '(q', k) := remove_all_instances q (getu q i) in (q', ONum k) else (q, ONum 0)
-  | OShrinkToFit e => (ensure_size q (cnt q + e) false 0 true, OStatus true)
-  | OEnsureCanAdd n => (ensure_size q (cnt q + n) false 0 false, OStatus true)
+  | OShrinkToFit e =>
+      if too_big (N.of_nat (cnt q)) e then (q, OStatus false)
+      else (ensure_size q (cnt q + N.to_nat e) false 0 true, OStatus true)
+  | OEnsureCanAdd n =>
+      if too_big (N.of_nat (cnt q)) n then (q, OStatus false)
+      else (ensure_size q (cnt q + N.to_nat n) false 0 false, OStatus true)
   | OReplaceAll x => (write_from q 0 (repeat x (cnt q)), ONone)
   | OPieces => (q, OList (fst (pieces q) ++ snd (pieces q)))
   end.
